@@ -53,7 +53,7 @@ Qed.
 Lemma visit_step_rl s i s' : rl_inv s -> visit_step s i = Some s' -> rl_inv s'.
 Proof.
   intros Hi H. pose proof (visit_step_ctrl _ _ _ H) as (E1 & _ & _ & E4 & _).
-  unfold visit_step in H. destruct (rd s) eqn:Erd; try discriminate.
+  unfold visit_step in H. destruct (rd_cancel (rd s)) eqn:Erc; [|discriminate]. unfold visit_body in H.
   destruct (nth_error (calls s) i) as [c|] eqn:En; [|discriminate].
   destruct (c_tab c && negb (c_vis c) && mu_free c); [|discriminate].
   destruct (negb (c_rep c) && cstat_ok (c_stat c)); inversion H; subst; clear H;
@@ -165,6 +165,8 @@ Proof.
   - inversion H; subst; clear H. unfold rl_inv, bound_to, notify in *; cbn.
     destruct (notified s); cbn; repeat split; auto; try discriminate;
       intros j c d Hj Hh; destruct (A1 j c d Hj Hh); discriminate.
+  - destruct (all_visited (calls s)); inversion H; subst; clear H. unfold rl_inv, bound_to in *; cbn; repeat split; auto; try discriminate.
+    intros j c d Hj Hh; destruct (A1 j c d Hj Hh); discriminate.
 Qed.
 
 Lemma rl_inv_step s e s' fx : stat_inv s -> calls_ok s -> rl_inv s -> sstep s e = Some (s', fx) -> rl_inv s'.
@@ -261,10 +263,11 @@ Proof.
     + destruct seen; inversion H; subst; unfold sk_inv; cbn; repeat split; auto; discriminate.
     + inversion H; subst; unfold sk_inv; cbn; repeat split; auto.
     + inversion H; subst; unfold sk_inv; cbn. destruct (notified s); cbn; repeat split; auto; try discriminate.
+    + destruct (all_visited (calls s)); inversion H; subst; unfold sk_inv; cbn; repeat split; auto; discriminate.
   - unfold noeff in H. destruct (visit_step s i) as [s0|] eqn:E; inversion H; subst s0 fx; clear H.
     destruct (visit_step_ctrl _ _ _ E) as (E1 & _ & _ & E4 & E5 & _).
     assert (Es : sock s' = sock s).
-    { unfold visit_step in E. destruct (rd s); try discriminate.
+    { unfold visit_step in E. destruct (rd_cancel (rd s)) eqn:Erc; [|discriminate]. unfold visit_body in E.
       destruct (nth_error (calls s) i) as [c|]; [|discriminate].
       destruct (c_tab c && negb (c_vis c) && mu_free c); [|discriminate].
       destruct (negb (c_rep c) && cstat_ok (c_stat c)); inversion E; reflexivity. }
@@ -365,7 +368,7 @@ Proof.
   intros Hy H. pose proof (visit_step_ctrl _ _ _ H) as (E1 & _ & _ & E4 & E5 & E6 & _).
   assert (Ep : postb s' = postb s) by (unfold postb; rewrite E1, E4, E5, E6; reflexivity).
   unfold yg_inv. rewrite Ep. intros P. specialize (Hy P).
-  unfold visit_step in H. destruct (rd s); try discriminate.
+  unfold visit_step in H. destruct (rd_cancel (rd s)) eqn:Erc; [|discriminate]. unfold visit_body in H.
   destruct (nth_error (calls s) i) as [c|] eqn:En; [|discriminate].
   destruct (c_tab c && negb (c_vis c) && mu_free c) eqn:Ec; [|discriminate].
   destruct (negb (c_rep c) && cstat_ok (c_stat c)); inversion H; subst; cbn; apply Forall_upd; auto.
@@ -500,6 +503,8 @@ Proof.
     unfold yg_inv, postb in *; cbn; rewrite Erd in Hy; cbn in Hy; intros _; apply Hy; reflexivity.
   - unfold reader_step, notify in H. rewrite Erd in H. inversion H; subst.
     unfold yg_inv, postb in *; cbn; rewrite Erd in Hy; cbn in Hy. destruct (notified s); cbn; intros _; apply Hy; reflexivity.
+  - unfold reader_step in H. rewrite Erd in H. destruct (all_visited (calls s)); inversion H; subst.
+    unfold yg_inv, postb in *; cbn. rewrite Erd in Hy. exact Hy.
 Qed.
 
 Lemma yg_inv_step s e s' fx :
@@ -710,7 +715,16 @@ Proof.
   - (* D4: the cancel loop is not blocked *)
     destruct (all_visited (calls s)) eqn:Ev; [discriminate|].
     unfold all_visited in Ev. destruct (forallb_false_nth _ _ Ev) as (j & c0 & Hj & Hc0).
-    pose proof (terminal_visit s j c0 T Hj) as V. unfold visit_step in V. rewrite Erd, Hj in V.
+    pose proof (terminal_visit s j c0 T Hj) as V. unfold visit_step in V. rewrite Erd in V. cbn [rd_cancel] in V.
+    unfold visit_body in V. rewrite Hj in V.
+    apply orb_false_iff in Hc0. destruct Hc0 as (Ht & Hv). apply negb_false_iff in Ht.
+    rewrite Ht, Hv, (Hfree _ _ Hj) in V. cbn in V.
+    destruct (negb (c_rep c0) && cstat_ok (c_stat c0)); discriminate.
+  - (* DC: nor is the first one *)
+    destruct (all_visited (calls s)) eqn:Ev; [discriminate|].
+    unfold all_visited in Ev. destruct (forallb_false_nth _ _ Ev) as (j & c0 & Hj & Hc0).
+    pose proof (terminal_visit s j c0 T Hj) as V. unfold visit_step in V. rewrite Erd in V. cbn [rd_cancel] in V.
+    unfold visit_body in V. rewrite Hj in V.
     apply orb_false_iff in Hc0. destruct Hc0 as (Ht & Hv). apply negb_false_iff in Ht.
     rewrite Ht, Hv, (Hfree _ _ Hj) in V. cbn in V.
     destruct (negb (c_rep c0) && cstat_ok (c_stat c0)); discriminate.
@@ -720,7 +734,7 @@ Qed.
 
 (* ---- a written call ends with a connection error only after the connection was lost ---- *)
 Definition rd_exited (r : rpc) : bool :=
-  match r with D0 | D1 _ | D2 _ | D3 _ | D4 _ | D5 _ | D6 | D8 | RDone => true | _ => false end.
+  match r with D0 | D1 _ | D2 _ | DC _ | D3 _ | D4 _ | D5 _ | D6 | D8 | RDone => true | _ => false end.
 
 Definition lost_evidence (s : sess) : Prop := passive (st s) = true \/ rd_exited (rd s) = true.
 
@@ -755,6 +769,7 @@ Proof.
     + destruct seen; inversion H; subst; reflexivity.
     + inversion H; subst; reflexivity.
     + cbn in H. destruct (notified s); inversion H; subst; reflexivity.
+    + destruct (all_visited (calls s)); inversion H; subst; reflexivity.
   - unfold noeff in H. destruct (visit_step s i) eqn:E; inversion H; subst.
     destruct (visit_step_ctrl _ _ _ E) as (_ & _ & _ & E4 & _). rewrite E4; auto.
   - unfold noeff in H. destruct (caller_step s i veto wr) eqn:E; inversion H; subst.
@@ -854,15 +869,17 @@ Proof.
     + destruct seen; inversion H; subst; (apply (cc_all_mono _ _ Hm); [reflexivity|exact Hcc]).
     + inversion H; subst; (apply (cc_all_mono _ _ Hm); [reflexivity|exact Hcc]).
     + inversion H; subst. apply (cc_all_mono _ _ Hm); [|exact Hcc]. unfold notify; cbn. destruct (notified s); reflexivity.
+    + destruct (all_visited (calls s)); inversion H; subst; (apply (cc_all_mono _ _ Hm); [reflexivity|exact Hcc]).
   - (* visit: the cancel loop runs inside readDisconnected *)
     unfold noeff in H. destruct (visit_step s i) as [s0|] eqn:E; inversion H; subst s0 fx; clear H.
-    unfold visit_step in E. destruct (rd s) eqn:Erd; try discriminate.
+    unfold visit_step in E. destruct (rd_cancel (rd s)) eqn:Erc; [|discriminate]. unfold visit_body in E.
     destruct (nth_error (calls s) i) as [c|] eqn:En; [|discriminate].
     pose proof (Forall_nth _ _ _ _ Hcc En) as (K1 & K2 & K3).
+    assert (Hex : rd_exited (rd s) = true) by (destruct (rd s); try discriminate Erc; reflexivity).
     destruct (c_tab c && negb (c_vis c) && mu_free c); [|discriminate].
     destruct (negb (c_rep c) && cstat_ok (c_stat c)); inversion E; subst;
       (eapply (cc_upd _ _ i); [exact Hm|reflexivity| |exact Hcc]);
-      unfold cc_ok, lost_evidence; cbn; rewrite ?Erd; repeat split; auto; try discriminate; try lia.
+      unfold cc_ok, lost_evidence; cbn; rewrite ?Hex; repeat split; auto; try discriminate; try lia.
   - (* caller *)
     unfold noeff in H. destruct (caller_step s i veto wr) as [s0|] eqn:E; inversion H; subst s0 fx; clear H.
     unfold caller_step in E. destruct (nth_error (calls s) i) as [c|] eqn:En; [|discriminate].
